@@ -53,8 +53,15 @@ def check(ctx: Ctx) -> None:
         vparts = {}
         for t, node in vocab.items():
             pp = parse_parts(t, {})
-            if pp is None:
-                raise AnalysisError(f"vocabulary key `{show(t)}` does not follow the token grammar: outside the model")
+            if pp is None or any(sp == "!cut" for seg in t if seg[0] == "fld" for sp in [seg[2]]):
+                key = ("grammar", show(t))
+                if key not in reported:
+                    reported.add(key)
+                    ctx.violation("TPL1", f"[{label}] vocabulary key `{show(t)}`", function=fv.qualname,
+                                  construct=f"vocabulary key shape `{show(t)}` does not follow the token grammar",
+                                  message="part ('-' part)* with part = prefix('_'field)* expected: tokenise emits no such token and detokenise cannot split it",
+                                  file=fv.file, node=node)
+                continue
             vparts[pp] = node
             if isinstance(pp, tuple) and pp and pp[0] == "TRAILING-SEPARATOR":
                 key = ("trail", fmt_parts(pp))
@@ -101,6 +108,11 @@ def check(ctx: Ctx) -> None:
 
     # ---------------- TPL2 counter discipline (flag independent, structural)
     n_ins = [0]
+    ds = p.func(f"{TOK}.dictionary_size")
+    ds_ret = [n for n in walk_local(ds.node) if isinstance(n, ast.Return)]
+    # the other common idiom: no counter at all, the size *is* the number of entries (`d[k] = len(d)`); ids are then fresh
+    # exactly when every inserted key is new, which DISTINCT (velocity values), the ranges and the duplicate-free user lists give
+    len_mode = len(ds_ret) == 1 and src(ds_ret[0].value) == "len(self.dictionary)"
 
     def is_insert(s):
         return isinstance(s, ast.Assign) and len(s.targets) == 1 and isinstance(s.targets[0], ast.Subscript) and \
@@ -113,17 +125,21 @@ def check(ctx: Ctx) -> None:
         for s in body:
             if is_insert(s):
                 n_ins[0] += 1
-                ctx.check(not pending, "TPL2", f"insertion `{short(s, 60)}` follows a completed increment", function=fv.qualname,
+                ctx.check(not pending or len_mode, "TPL2", f"insertion `{short(s, 60)}` follows a completed increment", function=fv.qualname,
                           construct="two vocabulary insertions without an increment of the size in between",
                           message="two tokens would receive the same id", file=fv.file, node=s)
                 v = s.value
                 okv = attr_chain(v) in (["self", "dictionary_size"], ["self", "_dictionary_size"])
+                if len_mode:
+                    okv = src(v) in ("self.dictionary_size", "len(self.dictionary)")
                 if isinstance(v, ast.Constant) and isinstance(v.value, int) and top_count[0] is not None:
                     okv = v.value == top_count[0]
                 ctx.check(okv, "TPL2", f"insertion `{short(s, 60)}` stores the running size", function=fv.qualname,
                           construct="vocabulary insertion stores something other than the running size",
                           message=f"value `{short(v)}` (entries inserted before: {top_count[0]})", file=fv.file, node=s)
-                pending = True
+                pending = not len_mode
+                if len_mode and top_count[0] is not None:
+                    top_count[0] += 1          # without a counter the number of entries grows with the insertion itself
             elif is_incr(s):
                 ok = pending and isinstance(s.op, ast.Add) and isinstance(s.value, ast.Constant) and s.value.value == 1
                 ctx.check(ok, "TPL2", f"`{short(s)}` follows exactly one insertion", function=fv.qualname,
@@ -150,14 +166,19 @@ def check(ctx: Ctx) -> None:
     ctx.check(not endp, "TPL2", "last insertion is followed by its increment", function=fv.qualname,
               construct="last vocabulary insertion not followed by an increment", message="", file=fv.file, node=fv.node)
     ctx.floor("vocabulary insertion statements", n_ins[0], 9)
-    ds = p.func(f"{TOK}.dictionary_size")
-    r = [n for n in walk_local(ds.node) if isinstance(n, ast.Return)]
-    ctx.check(len(r) == 1 and attr_chain(r[0].value) == ["self", "_dictionary_size"], "TPL2", "dictionary_size reports the counter", function=ds.qualname,
-              construct="dictionary_size does not return the counter", message="", file=ds.file, node=ds.node)
+    r = ds_ret
     init = p.func(f"{TOK}.__init__")
-    z = [s for s in walk_local(init.node) if isinstance(s, ast.Assign) and any(attr_chain(t) == ["self", "_dictionary_size"] for t in s.targets)]
-    ctx.check(len(z) == 1 and isinstance(z[0].value, ast.Constant) and z[0].value.value == 0, "TPL2", "counter starts at 0", function=init.qualname,
-              construct="vocabulary counter does not start at 0", message="", file=init.file, node=init.node)
+    if len_mode:
+        ctx.ok("TPL2", "dictionary_size is the number of entries (`len(self.dictionary)`): ids are fresh because every inserted key is new (DISTINCT, ranges, duplicate-free user lists)")
+        z0 = [s for s in walk_local(init.node) if isinstance(s, ast.Assign) and any(attr_chain(t) == ["self", "dictionary"] for t in s.targets)]
+        ctx.check(len(z0) == 1 and ((isinstance(z0[0].value, ast.Dict) and not z0[0].value.keys) or src(z0[0].value) == "dict()"), "TPL2", "the vocabulary starts empty",
+                  function=init.qualname, construct="vocabulary does not start empty", message="", file=init.file, node=init.node)
+    else:
+        ctx.check(len(r) == 1 and attr_chain(r[0].value) == ["self", "_dictionary_size"], "TPL2", "dictionary_size reports the counter", function=ds.qualname,
+                  construct="dictionary_size does not return the counter", message="", file=ds.file, node=ds.node)
+        z = [s for s in walk_local(init.node) if isinstance(s, ast.Assign) and any(attr_chain(t) == ["self", "_dictionary_size"] for t in s.targets)]
+        ctx.check(len(z) == 1 and isinstance(z[0].value, ast.Constant) and z[0].value.value == 0, "TPL2", "counter starts at 0", function=init.qualname,
+                  construct="vocabulary counter does not start at 0", message="", file=init.file, node=init.node)
 
     # ---------------- TPL3 inverse map
     inv = [s for s in fv.node.body if isinstance(s, ast.Assign) and any(attr_chain(t) == ["self", "inverse_dictionary"] for t in s.targets)]
@@ -250,6 +271,25 @@ def check(ctx: Ctx) -> None:
         else:
             ctx.undetermined("NK2", inst, kshow(s.kind))
     ctx.floor("emitter numeric token fields", n2, 9)
+    # NK2 without the integer-tick hypothesis: tokenise must emit vocabulary members for *every* input it accepts, and it accepts
+    # float-valued ticks (`24.0 in note_values` holds; `Sequence.scale(0.5)` produces them) -- a field that is an integer only
+    # because the ticks happen to be integers is rendered `val_24.0`
+    engf = KindEngine(p, float_ticks=True)
+    engf.solve()
+    nf = 0
+    for key, s in sorted(engf.sinks.items(), key=lambda kv: (kv[1].file, getattr(kv[1].node, "lineno", 0))):
+        if s.rule != "NK2" or not s.func.startswith(f"{TOK}.tokenise"):
+            continue
+        nf += 1
+        inst = f"{s.func}: {s.what} is an integer whatever the numeric type of the ticks (line {getattr(s.node, 'lineno', 0)})"
+        if may_float(s.kind):
+            ctx.violation("NK2", inst, function=s.func, construct=f"{s.what.split(' ', 1)[0]} token field is an integer only if the ticks of the input are integers",
+                          message=f"`{short(s.expr)}` has kind {kshow(s.kind)} when times may be floats: tokenise accepts such a sequence (a float equal to an "
+                                  f"allowed value passes the membership guard; `Sequence.scale(0.5)` yields float ticks) and renders `val_24.0`, which is not in "
+                                  f"the vocabulary -- encode raises KeyError on tokenise output", file=s.file, node=s.node)
+        else:
+            ctx.ok("NK2", inst, kshow(s.kind))
+    ctx.floor("emitter numeric token fields (float-tick run)", nf, 9)
     for attr, dom in (("step_sizes", "REST"), ("note_values", "VALUE"), ("velocity_bins", "VELOCITY")):
         k = eng.attr_lookup(TOK, attr)
         ek = elem(k) if k else None
@@ -262,6 +302,8 @@ def check(ctx: Ctx) -> None:
                           file=fv.file, node=fv.node)
         else:
             ctx.ok("NK2", inst)
+    from .common import view_deps
+    view_deps(ctx)
 
 
 def thorough(ctx: Ctx) -> None:
